@@ -820,6 +820,12 @@ class Parser:
             return self.create_node(TernaryNode, left, qm_node, trueblock, colon_node, falseblock)
         return left
 
+    def operand(self, node: BaseNode) -> BaseNode:
+        if isinstance(node, EmptyNode):
+            raise ParseException('Missing operand.',
+                                 self.getline(), node.lineno, node.colno)
+        return node
+
     def e2(self) -> BaseNode:
         left = self.e3()
         while self.accept('or'):
@@ -827,7 +833,7 @@ class Parser:
             if isinstance(left, EmptyNode):
                 raise ParseException('Invalid or clause.',
                                      self.getline(), left.lineno, left.colno)
-            left = self.create_node(OrNode, left, operator, self.e3())
+            left = self.create_node(OrNode, left, operator, self.operand(self.e3()))
         return left
 
     def e3(self) -> BaseNode:
@@ -837,7 +843,7 @@ class Parser:
             if isinstance(left, EmptyNode):
                 raise ParseException('Invalid and clause.',
                                      self.getline(), left.lineno, left.colno)
-            left = self.create_node(AndNode, left, operator, self.e4())
+            left = self.create_node(AndNode, left, operator, self.operand(self.e4()))
         return left
 
     def e4(self) -> BaseNode:
@@ -845,7 +851,7 @@ class Parser:
         op = self.accept_any(COMPARISON_MAP)
         if op:
             operator = self.create_node(SymbolNode, self.previous)
-            return self.create_node(ComparisonNode, COMPARISON_MAP[op], left, operator, self.e5())
+            return self.create_node(ComparisonNode, COMPARISON_MAP[op], self.operand(left), operator, self.operand(self.e5()))
         if self.accept('not'):
             ws = self.current_ws.copy()
             not_token = self.previous
@@ -859,7 +865,7 @@ class Parser:
                 not_token.bytespan = (not_token.bytespan[0], in_token.bytespan[1])
                 not_token.value += temp_node.whitespaces.value + in_token.value
                 operator = self.create_node(SymbolNode, not_token)
-                return self.create_node(ComparisonNode, 'not in', left, operator, self.e5())
+                return self.create_node(ComparisonNode, 'not in', self.operand(left), operator, self.operand(self.e5()))
             raise ParseException('Expecting in got {}.'.format(self.current.tid),
                                  self.getline(), self.current.lineno, self.current.colno)
         return left
@@ -870,7 +876,7 @@ class Parser:
             op = self.accept_any(ADDSUB_MAP)
             if op:
                 operator = self.create_node(SymbolNode, self.previous)
-                left = self.create_node(ArithmeticNode, ADDSUB_MAP[op], left, operator, self.e6())
+                left = self.create_node(ArithmeticNode, ADDSUB_MAP[op], self.operand(left), operator, self.operand(self.e6()))
             else:
                 break
         return left
@@ -881,7 +887,7 @@ class Parser:
             op = self.accept_any(MULDIV_MAP)
             if op:
                 operator = self.create_node(SymbolNode, self.previous)
-                left = self.create_node(ArithmeticNode, MULDIV_MAP[op], left, operator, self.e7())
+                left = self.create_node(ArithmeticNode, MULDIV_MAP[op], self.operand(left), operator, self.operand(self.e7()))
             else:
                 break
         return left
@@ -889,10 +895,10 @@ class Parser:
     def e7(self) -> BaseNode:
         if self.accept('not'):
             operator = self.create_node(SymbolNode, self.previous)
-            return self.create_node(NotNode, self.current, operator, self.e8())
+            return self.create_node(NotNode, self.current, operator, self.operand(self.e8()))
         if self.accept('dash'):
             operator = self.create_node(SymbolNode, self.previous)
-            return self.create_node(UMinusNode, self.current, operator, self.e8())
+            return self.create_node(UMinusNode, self.current, operator, self.operand(self.e8()))
         return self.e8()
 
     def e8(self) -> BaseNode:
